@@ -233,6 +233,68 @@ def r2_converters(rep, src):
             rep.ok('C17.R2', f.site, 'an accepted item is never split by the reader', 'every string containing a str.split() separator is matched by _has_space')
 
 
+def r2c_lists_of_any_length(rep, src, tier):
+    """the two list converters interpreted (sa.heap, CPython's regex engine on decided texts) on lists of 0 .. 12 items (thorough: up to
+    40) and on hand-written field texts -- the list on the line after the field name, one item per line, several blanks / tabs / line
+    breaks between two items, blanks at both ends: from_str(to_str(items)) gives the items, and a text reads as the items it shows,
+    however many there are."""
+    from .. import heap as H
+    mod = src.mod(M)
+    sizes = list(range(0, 13)) + ([20, 40] if tier == 'thorough' else [])
+    n = 0
+    for cname in ('_SpaceSeparated', '_LineBased'):
+        f = src.func('%s:%s.to_str' % (M, cname))
+        g = src.func('%s:%s.from_str' % (M, cname))
+        rep.saw_func(g)
+
+        def conv(fn, arg, cname=cname):
+            heap = H.Heap(mod, extra_modules=[src.mod('deb822')])
+            heap.native_regex = True
+            it = H.Interp(heap)
+            pre = [('class', cname)] if any(norm(d) == 'classmethod' for d in fn.node.decorator_list) else []
+            r_ = it.call(H.Closure(fn.node, {}, None, fn.cls), pre + [heap.new_list(list(arg)) if isinstance(arg, list) else arg])
+            if isinstance(r_, (str, type(None))):
+                return r_
+            if hasattr(r_, 'concrete') and not isinstance(r_, H.Ref):
+                return r_.concrete()
+            return [x_.concrete() if hasattr(x_, 'concrete') else x_ for x_ in it.seq(r_)]
+        bad = None
+        for k in sizes:
+            items = ['src/lib/file%d.c' % i for i in range(k)]
+            n += 1
+            try:
+                text = conv(f, items)
+                back = conv(g, text)
+            except H.Raised as x:
+                bad = bad or 'a list of %d items: raises %s (line %d)' % (k, x.exc, x.lineno)
+                continue
+            if list(back) != items:
+                bad = bad or 'a list of %d items is written as %r and read back as %d item(s), the last one %r' % (k, text, len(back), (list(back) or [None])[-1])
+        texts = []
+        for k in (1, 3, 9, 10, 12):
+            items = ['d%d/*' % i for i in range(k)]
+            if cname == '_SpaceSeparated':
+                texts += [('\n ' + '\n '.join(items), items), ('  ' + ' \t '.join(items) + '  \n', items), (' '.join(items[:1]) + ''.join('\n   ' + x_ for x_ in items[1:]), items)]
+            else:
+                texts += [('\n ' + '\n '.join(items), items), ('\n'.join('  ' + x_ + ' ' for x_ in items), items)]
+        texts += [('', []), (None, []), ('  \n ', [])]
+        for text, want in texts:
+            n += 1
+            try:
+                back = conv(g, text)
+            except H.Raised as x:
+                bad = bad or 'the field text %r: from_str raises %s (line %d)' % (text, x.exc, x.lineno)
+                continue
+            if list(back) != want:
+                bad = bad or 'the field text %r shows %d item(s); from_str gives %d, the last one %r' % (text, len(want), len(back), (list(back) or [None])[-1])
+        what = '%s: lists of any length read back item by item (interpreted lists and field texts)' % cname
+        if bad:
+            rep.fail('C17.R2', g.site, what, bad, where=g.where)
+        else:
+            rep.ok('C17.R2', g.site, what, '%d lists and %d field texts' % (len(sizes), len(texts)))
+    rep.analysed['paths'] += n
+
+
 def _is_identity_validator(fn):
     p = fn.params()
     rets = [r for r in ast.walk(fn.node) if isinstance(r, ast.Return)]
@@ -585,7 +647,12 @@ def check(src, rep, tier):
     rep.need('C17.R3', 4)
     rep.need('C17.R4', 3)
     rep.guard('C17.R1', r1_codec, src)
-    rep.guard('C17.R2', r2_converters, src)
+    from . import common
+    n_v, n_e = len(rep.violations), len(rep.errors)
+    rep.guard('C17.R2', r2c_lists_of_any_length, src, tier)
+    lists_hold = len(rep.violations) == n_v and len(rep.errors) == n_e
+    # (the symbolic reading of the converters -- exact for EVERY item text -- applies when they are written in its vocabulary)
+    common.SoftErrors(rep, lambda: lists_hold, 'the interpreted lists and field texts (C17.R2), which read back item by item').guard('C17.R2', r2_converters, src)
     rep.guard('C17.R3', r3_wrapper, src)
     rep.guard('C17.R4', r4_document, src)
     from . import common, C08
